@@ -33,6 +33,7 @@ import EaselModel.Msa.LemmasSet
 import EaselModel.Msa.LemmasSample
 import EaselModel.Msa.LemmasHist
 import EaselModel.Msa.LemmasHist2
+import EaselModel.Msa.Expand
 /-! # C15 — alignment transformations keep the alignment well formed and the residues intact; WUSS round trips
 
 Property theorems only; proofs are glue on the lemmas of `EaselModel/Msa/Lemmas*.lean`.
@@ -1458,6 +1459,48 @@ example : Steps2 exRfText
     (.op _ _ (.digitize _ _ generated_abcOk.1 (by decide))))
     (.op _ _ (.col _ _ (by decide) (by decide)))
 example : addGS 2 (addGS 2 [] [0x44] 0 [0x78]) [0x44] 0 [0x79] = [([0x44], [some [0x78, 0x0a, 0x79], none])] := by decide
+
+/-! ## esl_msa_Expand -/
+
+/-- `esl_msa_Expand` on a growable alignment all of whose per-sequence arrays have `sqalloc` slots: afterwards every array
+    (names, weights, lengths, rows, each optional SS/SA/PP/accession/description array that exists, every `#=GS` and `#=GR`
+    row) has exactly `2 * sqalloc` slots; the first `sqalloc` slots are the old ones, unchanged and in place — names,
+    weights and annotation stay attached to their sequence —; every new slot is NULL / weight `-1.0` / length 0; an optional
+    array that did not exist is not created; `k` calls give `2^k * sqalloc` slots. -/
+theorem expand_spec (g : Grow) (wf : g.Wf) :
+    (expandG g).Wf ∧ (expandG g).sqalloc = 2 * g.sqalloc ∧
+    (expandG g).sqname.take g.sqalloc = g.sqname ∧ (expandG g).wgt.take g.sqalloc = g.wgt ∧
+    (expandG g).sqlen.take g.sqalloc = g.sqlen ∧ (expandG g).rows.take g.sqalloc = g.rows ∧
+    (expandG g).sqname.drop g.sqalloc = List.replicate g.sqalloc none ∧
+    (expandG g).wgt.drop g.sqalloc = List.replicate g.sqalloc wgtUnset ∧
+    (expandG g).sqlen.drop g.sqalloc = List.replicate g.sqalloc 0 ∧
+    (∀ l, g.sqacc = some l → (expandG g).sqacc = some (l ++ List.replicate g.sqalloc none)) ∧
+    (∀ l, g.sqdesc = some l → (expandG g).sqdesc = some (l ++ List.replicate g.sqalloc none)) ∧
+    (∀ l, g.ss = some l → (expandG g).ss = some (l ++ List.replicate g.sqalloc (none, 0))) ∧
+    (g.ss = none → (expandG g).ss = none) ∧ (g.sa = none → (expandG g).sa = none) ∧ (g.pp = none → (expandG g).pp = none) ∧
+    (g.sqacc = none → (expandG g).sqacc = none) ∧ (g.sqdesc = none → (expandG g).sqdesc = none) ∧
+    (expandG g).gs = g.gs.map (fun t => (t.1, t.2 ++ List.replicate g.sqalloc none)) ∧
+    (expandG g).gr = g.gr.map (fun t => (t.1, t.2 ++ List.replicate g.sqalloc none)) ∧
+    ∀ k, (expandN k g).Wf ∧ (expandN k g).sqalloc = 2 ^ k * g.sqalloc := by
+  have e : 2 * g.sqalloc - g.sqalloc = g.sqalloc := by omega
+  refine ⟨expandG_wf g wf, rfl, padTo_take _ _ _ _ wf.sqname, padTo_take _ _ _ _ wf.wgt, padTo_take _ _ _ _ wf.sqlen,
+    padTo_take _ _ _ _ wf.rows, ?_, ?_, ?_, ?_, ?_, ?_, ?_, ?_, ?_, ?_, ?_, ?_, ?_, fun k => ⟨expandN_wf k g wf, expandN_sqalloc k g⟩⟩
+  · rw [show (expandG g).sqname = padTo g.sqalloc (2 * g.sqalloc) none g.sqname from rfl, padTo_drop _ _ _ _ wf.sqname, e]
+  · rw [show (expandG g).wgt = padTo g.sqalloc (2 * g.sqalloc) wgtUnset g.wgt from rfl, padTo_drop _ _ _ _ wf.wgt, e]
+  · rw [show (expandG g).sqlen = padTo g.sqalloc (2 * g.sqalloc) 0 g.sqlen from rfl, padTo_drop _ _ _ _ wf.sqlen, e]
+  · intro l h; simp [expandG, h, padTo, e]
+  · intro l h; simp [expandG, h, padTo, e]
+  · intro l h; simp [expandG, h, padTo, e]
+  · intro h; simp [expandG, h]
+  · intro h; simp [expandG, h]
+  · intro h; simp [expandG, h]
+  · intro h; simp [expandG, h]
+  · intro h; simp [expandG, h]
+  · simp [expandG, padTo, e]
+  · simp [expandG, padTo, e]
+
+example : (Grow.create 16).Wf ∧ (expandN 2 (Grow.create 16)).sqalloc = 64 ∧ (expandG (Grow.create 1)).wgt = [wgtUnset, wgtUnset] :=
+  ⟨Grow.create_wf 16, by decide, by decide⟩
 
 /-! ## esl_msa_Set{Name,Desc,Accession,Author,SeqName,SeqAccession,SeqDescription} and their esl_msa_Format* twins -/
 
